@@ -85,6 +85,24 @@ struct TableSpec {
     fixed: bool,
     /// family "ad": `t(a INT, d INT, c TEXT)` with rows (a, d) and c = c_of(a, d); `rows` is unused
     ad: Option<Vec<(Option<i64>, Option<i64>)>>,
+    /// sign variant of the numeric columns a and b (family "abc" only): 0 = as enumerated (all values
+    /// positive), 1 = every value negated (every group's non-NULL values are all negative),
+    /// 2 = mixed (a: 1 -> -1, 2 stays; b: 0.5 -> -0.5, 1.5 stays, 2.5 -> -2.5)
+    sign: u8,
+}
+fn sign_a(sign: u8, a: i64) -> i64 {
+    match sign {
+        1 => -a,
+        2 if a == 1 => -1,
+        _ => a,
+    }
+}
+fn sign_b(sign: u8, b: f64) -> f64 {
+    match sign {
+        1 => -b,
+        2 if b != 1.5 => -b,
+        _ => b,
+    }
 }
 impl TableSpec {
     fn variant(&self) -> &'static str {
@@ -114,10 +132,10 @@ impl TableSpec {
         let pk = case["variant"].as_str() == Some("pk");
         if case["family"].as_str() == Some("ad") {
             let ad = case["rows"].as_array().map(|a| a.iter().map(|r| (r[0].as_i64(), r[1].as_i64())).collect()).unwrap_or_default();
-            return TableSpec { pk, rows: vec![], fixed: false, ad: Some(ad) };
+            return TableSpec { pk, rows: vec![], fixed: false, ad: Some(ad), sign: 0 };
         }
         let rows = case["rows"].as_array().map(|a| a.iter().map(|r| (r[0].as_i64(), r[1].as_str().map(|s| s.to_string()))).collect()).unwrap_or_default();
-        TableSpec { pk, rows, fixed: false, ad: None }
+        TableSpec { pk, rows, fixed: false, ad: None, sign: case["sign"].as_u64().unwrap_or(0) as u8 }
     }
     /// (id,) a, b, c   —   family "ad": (id,) a, d, c
     fn model_rows(&self) -> Vec<Row> {
@@ -145,8 +163,8 @@ impl TableSpec {
                 if self.pk {
                     r.push(V::Int(i as i64 + 1));
                 }
-                r.push(a.map(V::Int).unwrap_or(V::Null));
-                r.push(b_of(*a, c.as_deref()).map(V::Float).unwrap_or(V::Null));
+                r.push(a.map(|a| V::Int(sign_a(self.sign, a))).unwrap_or(V::Null));
+                r.push(b_of(*a, c.as_deref()).map(|b| V::Float(sign_b(self.sign, b))).unwrap_or(V::Null));
                 r.push(c.clone().map(V::Text).unwrap_or(V::Null));
                 r
             })
@@ -187,7 +205,7 @@ fn ad_tables(kmax: usize) -> Vec<TableSpec> {
         loop {
             let rows: Vec<_> = idx.iter().map(|&i| d[i]).collect();
             for pk in [false, true] {
-                out.push(TableSpec { pk, rows: vec![], fixed: false, ad: Some(rows.clone()) });
+                out.push(TableSpec { pk, rows: vec![], fixed: false, ad: Some(rows.clone()), sign: 0 });
             }
             let mut p = k;
             while p > 0 && idx[p - 1] == d.len() - 1 {
@@ -204,7 +222,7 @@ fn ad_tables(kmax: usize) -> Vec<TableSpec> {
     }
     let fixed = vec![(None, Some(1)), (Some(1), None), (Some(1), Some(1)), (None, None), (Some(2), None), (None, Some(2)), (Some(1), None), (None, Some(1)), (None, None), (Some(2), Some(1))];
     for pk in [false, true] {
-        out.push(TableSpec { pk, rows: vec![], fixed: true, ad: Some(fixed.clone()) });
+        out.push(TableSpec { pk, rows: vec![], fixed: true, ad: Some(fixed.clone()), sign: 0 });
     }
     out
 }
@@ -243,23 +261,37 @@ fn fixed_tables() -> Vec<Vec<TRow>> {
     ]
 }
 
-/// enumerated tables with <= kfull rows, then the fixed tables, then the deeper enumerated tables
-fn all_tables(kmax: usize, kfull: usize) -> Vec<TableSpec> {
+/// enumerated tables with <= kfull rows, then the fixed tables, then the sign variants (negated / mixed
+/// numeric columns) of the enumerated tables with <= ksign rows and of the fixed tables, then the deeper
+/// enumerated tables
+fn all_tables(kmax: usize, kfull: usize, ksign: usize) -> Vec<TableSpec> {
     let mut out = vec![];
-    let ms = multisets(kmax);
-    for rows in ms.iter().filter(|r| r.len() <= kfull) {
+    let ms = multisets(kmax.max(ksign));
+    for rows in ms.iter().filter(|r| r.len() <= kfull.min(kmax)) {
         for pk in [false, true] {
-            out.push(TableSpec { pk, rows: rows.clone(), fixed: false, ad: None });
+            out.push(TableSpec { pk, rows: rows.clone(), fixed: false, ad: None, sign: 0 });
         }
     }
     for rows in fixed_tables() {
         for pk in [false, true] {
-            out.push(TableSpec { pk, rows: rows.clone(), fixed: true, ad: None });
+            out.push(TableSpec { pk, rows: rows.clone(), fixed: true, ad: None, sign: 0 });
         }
     }
-    for rows in ms.iter().filter(|r| r.len() > kfull) {
+    // a sign variant differs from the table itself only if some numeric value is not NULL
+    let numeric = |rows: &Vec<TRow>| rows.iter().any(|(a, c)| a.is_some() || b_of(*a, c.as_deref()).is_some());
+    for (rows, fixed) in ms.iter().filter(|r| r.len() <= ksign).map(|r| (r.clone(), false)).chain(fixed_tables().into_iter().map(|r| (r, true))) {
+        if !numeric(&rows) {
+            continue;
+        }
+        for sign in [1u8, 2] {
+            for pk in [false, true] {
+                out.push(TableSpec { pk, rows: rows.clone(), fixed, ad: None, sign });
+            }
+        }
+    }
+    for rows in ms.iter().filter(|r| r.len() > kfull && r.len() <= kmax) {
         for pk in [false, true] {
-            out.push(TableSpec { pk, rows: rows.clone(), fixed: false, ad: None });
+            out.push(TableSpec { pk, rows: rows.clone(), fixed: false, ad: None, sign: 0 });
         }
     }
     out
@@ -456,7 +488,7 @@ impl QDesc {
         }
     }
     fn json(&self, spec: &TableSpec, sql: &str) -> Value {
-        json!({"family": spec.family(), "variant": spec.variant(), "rows": spec.rows_json(), "aggs": self.list, "group": self.grouping.name, "where": self.where_name, "having": self.having_name, "sql": sql})
+        json!({"family": spec.family(), "variant": spec.variant(), "sign": spec.sign, "rows": spec.rows_json(), "aggs": self.list, "group": self.grouping.name, "where": self.where_name, "having": self.having_name, "sql": sql})
     }
     fn from_json(case: &Value) -> Option<QDesc> {
         let (list, aggs) = agg_lists().into_iter().chain(agg_lists_ad()).find(|(n, _)| Some(n.as_str()) == case["aggs"].as_str())?;
@@ -614,6 +646,19 @@ fn check_one(t: &TestDb, mdb: &mq::Database, spec: &TableSpec, qd: &QDesc, rep: 
     match fail {
         None => {
             if !dry {
+                // vacuity evidence: MIN/MAX answers on either side of zero (an extremum that starts from 0
+                // instead of from the first value shows only when all inputs of a group lie on one side)
+                for (i, a) in qd.aggs.iter().enumerate() {
+                    if matches!(a.func, AggFunc::Min | AggFunc::Max) && (a.kind == "int" || a.kind == "real") {
+                        for r in &exp.rows {
+                            match r.get(nkeys + i).and_then(|v| v.as_f64()) {
+                                Some(x) if x < 0.0 => rep.count(&format!("{}_answers_negative", a.sig()), 1),
+                                Some(x) if x > 0.0 => rep.count(&format!("{}_answers_positive", a.sig()), 1),
+                                _ => {}
+                            }
+                        }
+                    }
+                }
                 rep.outcome(&format!("pass/{}/{}/{}/{}", qd.aggs[0].func.sql(), qd.grouping.sig, hv, if exp.rows.is_empty() { "no-rows" } else { "rows" }));
             }
             Verdict::Pass
@@ -806,7 +851,7 @@ fn run_table(ctx: &Ctx, rep: &mut Reporter, spec: &TableSpec, ti: usize, lists: 
     }
     rep.bulk(n, if spec.nrows() == 0 { 0 } else { n });
     rep.count("queries", n);
-    rep.count(if ad { "queries_same_type_keys_family" } else if deep { "queries_deep_pass" } else { "queries_full_pass" }, n);
+    rep.count(if ad { "queries_same_type_keys_family" } else if spec.sign != 0 { "queries_sign_variants" } else if deep { "queries_deep_pass" } else { "queries_full_pass" }, n);
 }
 
 struct C16;
@@ -854,13 +899,24 @@ impl Check for C16 {
                 return;
             }
         }
-        let tables = all_tables(kmax, kfull);
+        let ksign = ctx.opt("ksign").and_then(|s| s.parse().ok()).unwrap_or(ctx.tier.pick(2usize, 3usize));
+        rep.bound("sign_variant_tables_max_rows", json!(ksign));
+        for f in ["MIN", "MAX"] {
+            for k in ["int", "real"] {
+                for side in ["negative", "positive"] {
+                    rep.expect_nonzero(&format!("{f}({k})_answers_{side}"));
+                }
+            }
+        }
+        rep.expect_nonzero("tables_sign_variant");
+        let tables = all_tables(kmax, kfull, ksign);
         rep.bound("tables", json!(tables.len()));
         let lists = agg_lists();
         // work is split by table (one database per table); a fixed 8-row table is split by list
         let mut slot = 0u64;
         for (ti, spec) in tables.iter().enumerate() {
-            let deep = !spec.fixed && spec.rows.len() > kfull;
+            // the sign variants run like the deep pass: without the constructs of the open findings
+            let deep = (!spec.fixed && spec.rows.len() > kfull) || spec.sign != 0;
             let mine: Vec<(String, Vec<Agg>)> = if spec.fixed {
                 lists
                     .iter()
@@ -885,12 +941,15 @@ impl Check for C16 {
                 if first {
                     // (a fixed table is shared by several workers: count it once)
                     rep.count("tables", 1);
+                    if spec.sign != 0 {
+                        rep.count("tables_sign_variant", 1);
+                    }
                     if spec.rows.is_empty() {
                         rep.count("tables_empty", 1);
                     } else if spec.rows.iter().all(|(a, c)| a.is_none() && c.is_none()) {
                         rep.count("tables_all_null", 1);
                     }
-                    if deep {
+                    if deep && spec.sign == 0 {
                         rep.count("tables_deep_pass", 1);
                     }
                 }
